@@ -49,6 +49,14 @@ def plan(plan, tier, seed):
     except AnchorLost as e:
         plan.anchor_errors.append((n6, str(e)))
     plan.dropped.append(vC16.tail_loop_fn.__doc__.strip())
+    n12 = "C16.verus.execute_user_function.plain_body_statements_in_order"
+    plan.ob(n12, "verus", "proved", functions=["execute_user_function (the plain statement-body branch)"],
+            what="a function with a statement body returns a value only when its inputs were bound, every statement of the body succeeded -- each evaluated exactly once, in source order -- and the declared outputs were collected from the state the statements left; the scope opened for the call is closed again")
+    try:
+        plan.verus.append(VerusUnit("c16_plain", vC16.plain_unit(text), {"plain_body": n12}, ["canary_plain"]))
+    except AnchorLost as e:
+        plan.anchor_errors.append((n12, str(e)))
+    plan.dropped.append(vC16.plain_body_fn.__doc__.strip())
     n7 = "C16.verus.pattern_matches_value.variable_patterns_bind_or_compare"
     plan.ob(n7, "verus", "proved", functions=["src/interpreter/src/patterns.rs: pattern_matches_value_with_semantics (the arms for a variable pattern: `Expression::Var` and a variable wrapped in an expression)"],
             what="for every environment of bindings made so far and every matched part: an unbound pattern variable matches and is bound to exactly that part (nothing else in the environment changes); a variable already bound (repeated in the pattern) matches iff the part equals its binding, and is not rebound; any other expression pattern is evaluated under the bindings made so far and matches iff its value matches the part (option-guard semantics: a boolean value is the answer), binding nothing")
